@@ -8,7 +8,7 @@ Emboss/Spec/View.lean; lemmas: Emboss/Lemmas/{ExprMono,ViewMono,ViewMono2,Synth}
 -/
 import Emboss.Lemmas.ViewMono2
 import Emboss.Lemmas.Synth
-import Emboss.Lemmas.OkMonoArr
+import Emboss.Lemmas.Locality
 namespace Emboss.View
 open Emboss.ViewSpec
 
@@ -107,6 +107,20 @@ theorem C01_complete_fields_identical_partial (m : Module) (hm : moduleWF m = tr
     physStorage (G m k) (rootView sd ps (b ++ c)) f start size = some st :=
   physStorage_tight hm (w1 := rootView sd ps b) hcov (rootView_le sd ps b c) hsd K sz hsz rfl hlen k hk
     hf hkind h1
+
+/-- Locality ("an Ok view of size n depends only on its first n bytes"): a view that knows its
+size `sz ≤ |b|` and the view over just the first `sz` bytes of `b` agree on *everything* — every
+field value, every presence flag, and `Ok()` at every path, the structure's own `Ok()` included. -/
+theorem C01_locality_partial (m : Module) (hm : moduleWF m = true) (sd : StructDef)
+    (hsd : structWF m sd = true) (hcov : SizeCovers m sd) (ps : List Val) (b : List Nat)
+    (K : Nat) (sz : Int)
+    (hsz : (G m (K + 1)).read (rootView sd ps b) [sd.sizeField] = some (.int sz))
+    (h0 : 0 ≤ sz) (hlen : sz ≤ b.length) (k : Nat) (hk : k ≤ K + 1) :
+    Agree (G m k) (rootView sd ps (b.take sz.toNat)) (rootView sd ps b) := by
+  refine tight_agree hm (w0 := rootView sd ps (b.take sz.toNat)) (w := rootView sd ps b) rfl rfl
+    (rootView_take_le sd ps b _) rfl hsd hcov K sz hsz ?_ k hk
+  simp only [rootView, Storage.size, List.length_take]
+  omega
 
 /-- The hypothesis `SizeCovers` holds whenever the size field is the un-folded synthesized
 expression. -/
